@@ -7,9 +7,10 @@
    linearises where the cancelled goroutine re-takes the mutex: a query that was granted before that
    point returns nil ([isClosed] branch; in the model the cancel of a non-waiting query is a no-op).
 
-   Executable definitions only.  [fx = false] is the code as it is, [fx = true] the repaired variant
-   (finding F-C29: [nextQueryLocked] tests [active == max] instead of [active >= max], and
-   [AdjustCapacity] does not hand freed capacity to waiting queries). *)
+   Executable definitions only.  [fx = true] is the CURRENT code (after the fixes 7e41ac88 and 2748241c);
+   [fx = false] is the variant before those fixes (finding F-C29: [nextQueryLocked] tested [active == max]
+   instead of [active >= max], and [AdjustCapacity] did not hand freed capacity to waiting queries), kept
+   only so that the [_refuted] theorems keep saying what was wrong. *)
 From Coq Require Import ZArith List Bool.
 Import ListNotations.
 Open Scope Z_scope.
@@ -75,7 +76,12 @@ Definition qnext (fx : bool) (s : qstate) : qstate * list qev :=
          end
        end.
 
-(* repaired AdjustCapacity: hand out capacity while there is some *)
+(* AdjustCapacity after 2748241c, as used by [qstep]: call nextQueryLocked until it grants nothing.
+   [adjust_loop] below is the committed loop literally
+     for q.activeQuery < q.maxActiveQuery && q.waitingUsersByPriority.Len() > 0 { q.nextQueryLocked() }
+   and ProofsQueue.adjust_loop_is_qdrain / adjust_loop_exit prove that the two coincide on every state
+   whose users all have a waiting query, and that the fuel (number of waiting queries) is enough for
+   the loop condition to be false at the end. *)
 Fixpoint qdrain (fx : bool) (fuel : nat) (s : qstate) : qstate * list qev :=
   match fuel with
   | O => (s, [])
@@ -84,6 +90,18 @@ Fixpoint qdrain (fx : bool) (fuel : nat) (s : qstate) : qstate * list qev :=
            | [] => (s1, [])
            | _ => let '(s2, e2) := qdrain fx f s1 in (s2, e1 ++ e2)
            end
+  end.
+
+Definition adjust_cond (s : qstate) : bool :=
+  (q_active s <? q_max s) && (match q_users s with [] => false | _ => true end).
+
+Fixpoint adjust_loop (fuel : nat) (s : qstate) : qstate * list qev :=
+  match fuel with
+  | O => (s, [])
+  | S f => if adjust_cond s then
+             let '(s1, e1) := qnext true s in
+             let '(s2, e2) := adjust_loop f s1 in (s2, e1 ++ e2)
+           else (s, [])
   end.
 
 Definition waiting_count (us : list urec) : nat := length (concat (map u_qs us)).
@@ -95,8 +113,13 @@ Definition drop_query (q : Z) (u : urec) : urec :=
   {| u_tok := u_tok u; u_ord := u_ord u; u_qs := filter (fun x => negb (x =? q)) (u_qs u) |}.
 Definition nonempty_user (u : urec) : bool := match u_qs u with [] => false | _ => true end.
 
-Definition push_query (tok q : Z) (u : urec) : urec :=
-  if u_tok u =? tok then {| u_tok := u_tok u; u_ord := u_ord u; u_qs := u_qs u ++ [q] |} else u.
+(* u.qry.PushBack(qry) on the user found by name (the first record with that token) *)
+Fixpoint push_query (tok q : Z) (us : list urec) : list urec :=
+  match us with
+  | [] => []
+  | u :: r => if u_tok u =? tok then {| u_tok := u_tok u; u_ord := u_ord u; u_qs := u_qs u ++ [q] |} :: r
+              else u :: push_query tok q r
+  end.
 
 Definition qstep (fx : bool) (s : qstate) (op : qop) : qstate * list qev :=
   match op with
@@ -104,7 +127,7 @@ Definition qstep (fx : bool) (s : qstate) (op : qop) : qstate * list qev :=
     let q := q_next s in
     match find_user tok (q_users s) with
     | Some _ =>
-      qnext fx {| q_active := q_active s; q_max := q_max s; q_users := map (push_query tok q) (q_users s);
+      qnext fx {| q_active := q_active s; q_max := q_max s; q_users := push_query tok q (q_users s);
                   q_order := q_order s; q_next := q + 1 |}
     | None =>
       if q_active s <? q_max s then
@@ -129,6 +152,10 @@ Definition qstep (fx : bool) (s : qstate) (op : qop) : qstate * list qev :=
                  q_order := q_order s; q_next := q_next s |} in
     if fx then qdrain fx (waiting_count (q_users s)) s1 else (s1, [])
   end.
+
+(* outcome ids of a list of events: the Acquire calls that returned in it *)
+Definition oids (es : list qev) : list Z :=
+  flat_map (fun e => match e with QGranted _ q => [q] | QCancelled q => [q] | QPanic => [] end) es.
 
 (* the protocol of the callers: Release is called by a holder, capacities are not negative *)
 Definition qenabled (s : qstate) (op : qop) : Prop :=
